@@ -85,7 +85,7 @@ var Probes = []string{
 	`[.[] | arrays] | transpose, ., (transpose | .[0][0] = "t"), .`,
 	`to_entries, ., (to_entries | .[0].value = 1), ., with_entries(.), .`,
 	`to_entries | (map(.value) | .[0] = "e"), .`,
-	`to_entries | from_entries`, `with_entries(.value |= [.])`, `[paths], [leaf_paths], .`,
+	`to_entries | from_entries`, `with_entries(.value |= [.])`, `[paths], [paths(scalars)], .`,
 	`[tostream] | ., fromstream(.[])`, `fromstream(tostream), .`,
 	`[..], ., [.. | scalars]`, `getpath(["a","b"]) as $y | $y, (.a.b = 5), $y, .`,
 	`keys, ., (keys | .[0] = 1), [.[]?]`, `[splits("a")]?, .`,
@@ -96,7 +96,7 @@ var Probes = []string{
 	`del(.a.q), .`, `del(.zzz), .`, `del(.b.c[0]), .`, `del(.[0]), .`, `del(.[0, 2]), .`, `del(.[1:]), .`,
 	`del(.[]?), .`, `del(..), .`, `del(.a, .b), .`, `delpaths([["a"], ["b", "c"]]), .`, `delpaths([]), .`,
 	`del(.. | select(. == null)), .`, `del(.[]? | select(type == "array")), .`, `to_entries | del(.[0]), .`,
-	`delpaths([paths]), .`, `delpaths([leaf_paths]), .`, `[paths] as $p | delpaths($p[:2]), .`,
+	`delpaths([paths]), .`, `delpaths([paths(scalars)]), .`, `[paths] as $p | delpaths($p[:2]), .`,
 	`. as $x | del(.a) | ., $x`, `. as $x | (.b.c |= empty), $x`, `. as $x | [$x, $x] | del(.[0].a), $x`,
 	`{a: ., b: .} | del(.a[0]?), .`, `{a: ., b: .} | (.a[0]? |= 9), .`, `[., .] | (.[0] |= (.[0]? = "u")), .`,
 	`. as $x | {a: $x} | (.a.a = 1), $x`, `. as $x | [$x] | (.[0][0]? = 1), $x`,
@@ -118,7 +118,7 @@ var Probes = []string{
 	`{"a":1,"b":2,"c":3,"d":4,"e":5,"f":6,"g":7,"h":8,"i":9,"j":10} | keys, to_entries[0], tojson, tostring, @text, @json, ([.[]] | add), (. * {k: 1}), (. + {a: 0}), with_entries(.value += 1), [paths], map_values(. + 1), del(.a), tostream`,
 	`{"a":1,"b":2,"c":3,"d":4,"e":5,"f":6,"g":7,"h":8,"i":9,"j":10} | error`, `{"j":1,"i":2,"h":3,"g":4,"f":5,"e":6,"d":7,"c":8,"b":9,"a":10} | .[] as $x | $x`,
 	`[{"j":1,"i":2,"h":3,"g":4,"f":5,"e":6,"d":7,"c":8,"b":9,"a":10}, {"a":10,"b":9,"c":8,"d":7,"e":6,"f":5,"g":4,"h":3,"i":2,"j":0}] | sort, min, max, (.[0] == .[1]), (.[0] < .[1]), unique, group_by(.), (.[0] | contains(.)), (.[0] | inside(.)), ([.[] | to_entries] | add | length)`,
-	`builtins | length`, `[builtins | sort == (builtins | sort)]`, `$__loc__`, `input_line_number?`, `[limit(3; repeat(.))] | length`,
+	`builtins | length`, `[builtins | sort == (builtins | sort)]`, `[limit(3; repeat(.))] | length`,
 	`@csv "\([1, "a"])", @sh "\("x y")", @html "\("<&>")", @uri "\("a b")", @base32 "\("x")", @base32d "\("PA======")"`,
 	`0 | todate, ("2015-03-05T23:51:47Z" | fromdate), (1425599507 | gmtime | mktime)`,
 	`[combinations]?`, `[.[]? | arrays] | [combinations]`, `[range(3)] | combinations(2)`,
@@ -126,7 +126,7 @@ var Probes = []string{
 	`getpath(["a", "b", "c"]), paths(type == "number"), ([paths] | length), any, all, ([.[]?] | length)`,
 	`indices(1), index("a")?, (tostring | ascii_downcase), (tojson | length), ltrimstr("a"), ([.[]?] | join(",")?)`,
 	`INDEX(.[]?; type), [JOIN({}; .[]?; tostring)]?, IN(.[]?), [.[]? | IN(1, 2)]`,
-	`splits("x")?, ascii?, implode?, (try tonumber catch "nan"), ([.[]? | numbers] | add / (length + 1)), (.. | numbers | floor | sqrt)`,
+	`splits("x")?, implode?, (try tonumber catch "nan"), ([.[]? | numbers] | add / (length + 1)), (.. | numbers | floor | sqrt)`,
 	`walk(if type == "object" then del(.a) else . end), .`, `walk(if type == "array" then sort else . end), .`,
 	`[.[]? | objects | to_entries[]] | group_by(.key) | map({key: .[0].key, value: map(.value)}) | from_entries`,
 	`. as $d | reduce paths as $p (null; setpath($p; $d | getpath($p))), $d`,
